@@ -60,8 +60,11 @@ SIM_CHECKS = [
 ]
 
 GRAPH_NOTE = ("Trusted: TLC, CommunityModules Json; the object is driven through cfg(dust_dds_verif) re-exports (no behaviour change); "
-              "the replay reaches a model state through one BFS path, so behaviour that depends on hidden state not in the projection "
-              "could be masked (the projections were extended where this was observed: waiter states for StatusWait).")
+              "the transition-by-transition replay reaches a model state through one representative path (the order of the outgoing edges "
+              "is permuted by the seed, three orders in the thorough tier); in addition random walks through the graph (200 per "
+              "configuration quick, 1000 thorough) are executed as whole behaviours on one object and compared after every step, so that "
+              "an effect an earlier call left behind outside the projection is met by later calls. Configurations named *_walk are larger "
+              "models explored by TLC's simulation mode. The projection always comes from the object under test.")
 
 OTHER_CHECKS = [
     ("C32", "model_checking",
@@ -80,11 +83,11 @@ OTHER_CHECKS = [
      "5.11, 6 C08", "Trusted: TLC, the independent encoder and the name->number mapping in harness/src/wire.rs. INFO_REPLY / PAD / vendor submessages only as received messages (C06).",
      "explicit TLA+ spec of the message structure and encoded lengths; TLC-enumerated messages encoded/decoded by the library and compared with the specification and an independent encoder"),
     ("C11", "model_checking",
-     "KeyHash.tla defines the key of a type (key members in declaration order, nested ones included), its big-endian CDR serialization and SameInstance; TLC evaluates it on 666 (type, value) cases over 10 key types (single / multiple / nested / whole-structure / string keys, 16 and 17 octet keys). The harness computes the instance handle of real samples of the corresponding Rust types twice with different non-key members, compares all 132 k value pairs of a type (same handle iff same key) and, in the simulation, compares the handle returned by register_instance with the handle of the sample a remote reader presents and with the handle of the disposed instance (derived from the key-only payload).",
-     "6 C11", "Trusted: TLC; the Rust types of harness/src/keyhash.rs mirror MC_KeyHash.tla by hand. A user reader always derives the handle from the payload, so 'whether or not the key hash travels' is covered by construction (the built-in readers' case was the f7ef369 defect, found through C16).",
+     "KeyHash.tla defines the key of a type (key members in declaration order, nested ones included), its big-endian CDR serialization and SameInstance; TLC evaluates it on 666 (type, value) cases over 10 key types (single / multiple / nested / whole-structure / string keys, 16 and 17 octet keys). The harness computes the instance handle of real samples of the corresponding Rust types twice with different non-key members, compares all 132 k value pairs of a type (same handle iff same key) and, in the simulation, compares the handle returned by register_instance with the handle of the sample a remote reader presents and with the handle of the disposed instance (derived from the key-only payload); every value is also sent as a sample so large that it is fragmented (DATA_FRAG carries no inline QoS: the key hash does not travel and the reader derives the handle from the whole payload), for types whose key is not a prefix of the sample and for a type whose only key member lies in a nested struct.",
+     "6 C11", "Trusted: TLC; the Rust types of harness/src/keyhash.rs mirror MC_KeyHash.tla by hand. Both cases of 'whether or not the key hash travels' are exercised (small samples carry PID_KEY_HASH, fragmented ones do not).",
      "explicit TLA+ spec of key extraction and identity; TLC-evaluated cases compared with the real handle computation and with writer/reader handles in the simulation"),
     ("C12", "model_checking",
-     "KeyHash.tla: KeyHash(type, value) = big-endian CDR octets of the key members zero padded to 16 when MaxSize(type) <= 16, otherwise the MD5 digest of those octets (the specification gives the octets to digest). TLC computes octets, MaxSize and the decision for 666 cases (98 padded, 568 MD5; bounded keys of exactly 16 and 17 octets; unbounded string keys with short and long values); the harness compares the real instance handle and, end to end, the handle register_instance returns (= PID_KEY_HASH sent).",
+     "KeyHash.tla: KeyHash(type, value) = big-endian CDR octets of the key members zero padded to 16 when MaxSize(type) <= 16, otherwise the MD5 digest of those octets (the specification gives the octets to digest). TLC computes octets, MaxSize and the decision for 666 cases (98 padded, 568 MD5; bounded keys of exactly 16 and 17 octets; unbounded string keys with short and long values); the harness compares the real instance handle and, end to end, the handle register_instance returns (= PID_KEY_HASH sent) and the handle the remote reader uses, also for fragmented samples that carry no key hash.",
      "6 C12", "Known finding: the implementation decides on the actual instead of the maximum serialized size (short values of unbounded string keys are padded instead of hashed). 64 bit members (XCDR1 vs XCDR2 alignment is ambiguous in the property) and explicit member ids are outside the type language.",
      "explicit TLA+ spec of the key hash (octets, maximum size, pad/MD5 decision) evaluated by TLC and compared with the implementation"),
     ("C14", "model_checking",
@@ -101,10 +104,10 @@ OTHER_CHECKS = [
      "explicit TLA+ spec + TLC; every transition replayed through the public API in the deterministic simulation"),
     ("C37", "model_checking",
      "Qos.tla: QoS values are records of the policies the rules talk about (reliability, history, resource limits, deadline, time based filter, representation, user/topic/group data, presentation, partition); Consistent and ImmutableChanged are defined per entity kind; actions Create / SetQos / Enable with the DDS return code, the QoS held afterwards and what a remote participant sees (Announced). TLC enumerates all histories of <= 4 calls over curated value sets that hit every rule (6 kinds: writer, reader, topic, publisher, subscriber, participant; 170 states, 1 004 transitions; invariants AlwaysConsistent, ImmutableKept). Every transition is replayed on real entities inside the deterministic simulation with two participants: return code, get_qos and the QoS read from the second participant's built-in readers (DCPSPublication, DCPSSubscription, DCPSTopic, DCPSParticipant) are compared after every step.",
-     "6 C37", GRAPH_NOTE + " Value sets are curated (5-8 values per kind), not the full QoS space; durability, liveliness, ownership, destination order as immutable policies are represented by reliability/history/resource limits only; set_default_*_qos is not in the model.",
+     "6 C37", GRAPH_NOTE + " Value sets are curated (5-8 values per kind), not the full QoS space; durability, liveliness, ownership, destination order as immutable policies are represented by reliability/history/resource limits only; The factory defaults are in the model (variable dflt: set_default_<kind>_qos with consistent / inconsistent values and QosKind::Default, create and set_qos with QosKind::Default, get_default_<kind>_qos compared after every step; configurations MC_Qos_<kind>_dflt); the DomainParticipantFactory's default participant QoS is not (shared by the process).",
      "explicit TLA+ spec + TLC; every transition replayed through the public API in a two-participant deterministic simulation"),
     ("C36", "model_checking",
-     "Entities.tla gives the DDS return code of every create / delete / get_qos / delete_contained_entities / delete_participant call as a function of the entity tree (children present, topic in use, already deleted, wrong parent); TLC enumerates all histories of <= 6 operations (2 publishers, 1 subscriber, 2 topics with 2 names, 2 writers, 1 reader; 1 559 states, 7 247 transitions) and every transition is replayed through the async API in the simulation and compared.",
+     "Entities.tla gives the DDS return code of every create / delete / get_qos / delete_contained_entities / delete_participant call as a function of the entity tree (children present, topic in use, already deleted, wrong parent); TLC enumerates all histories of <= 6 operations (2 publishers, 1 subscriber, 2 topics with 2 names, 2 writers, 1 reader; 1 559 states, 7 247 transitions) and every transition is replayed through the async API in the simulation and compared: the return code and, after every call, which entities still exist (every entity ever created is asked: get_qos answers or AlreadyDeleted), so that a refused operation is seen to change nothing.",
      "5.8, 6 C36", GRAPH_NOTE + " Content filtered topics are in the model (create / delete / topic still related / delete_contained_entities); set_listener on deleted entities and readers on content filtered topics are not.",
      "explicit TLA+ spec + TLC; every transition replayed through the public API in the deterministic simulation"),
     ("C38", "model_checking",
@@ -129,7 +132,7 @@ CHECKS = [
     ("C21", "model_checking", rc_text("Decides per-instance source-timestamp order for all arrival orders of 3 timestamps."), "5.2, 6 C21"),
     ("C22", "model_checking", rc_text("Decides instance/view state and generation counts for all write/dispose/unregister/read interleavings of two writers, incl. the unregister of a writer with autodispose (NOT_ALIVE_DISPOSED + writer removed, cfg C22c)."), "5.2, 6 C22"),
     ("C23", "model_checking", rc_text("Decides read_next_instance/take_next_instance over three instances with masks."), "5.2, 6 C23"),
-    ("C24", "model_checking", rc_text("Decides exclusive ownership with two strengths, unregister and unmatch of the owner."), "5.2, 6 C24"),
+    ("C24", "model_checking", rc_text("Decides exclusive ownership with two strengths, unregister and unmatch of the owner. End to end, Trace_Ownership.tla keeps owner and time of the last accepted change per instance and decides for every write of two or three writers of different strength (one per participant) whether the EXCLUSIVE reader must present it: owner / stronger writer / owner deleted / owner silent for longer than the reader's deadline (released by the worker's deadline sweep) / owner unregistered; inside the detection windows (one worker period, one discovery message) either outcome is accepted by looking ahead in the trace. Families: deadline, two instances, unregister, delete, random mixes."), "5.2, 6 C24"),
     ("C25", "model_checking", rc_text("Decides the time-based filter for all orders of 5 timestamps with separation 2."), "5.2, 6 C25"),
 ]
 
